@@ -258,7 +258,7 @@ PROPS = {
     },
     "C20": {
         "modules": ["Qvnt.Props.C20"],
-        "tie": [tie(r"creg_.*_eq|notW_eq", modules=("Qvnt.Lemmas.GenRegs",), audit="Qvnt/Audit/GenRegs.lean", sources=r"UNSUPPORTED class\.rs"), tie2(r"bits_(from|next)_eq|bitsCollect_eq|bitsList_eq|creg_(get_by_mask|mul|mul_assign|new)_eq|h_(loop|h)_eq|vreg_\w+_eq|quant_get_vreg(_by)?_eq", r"UNSUPPORTED (bits_iter\.rs|class\.rs|h\.rs|virtl\.rs|quant\.rs: register/quant\.rs::get_vreg)", creg=True)],
+        "tie": [tie(r"creg_.*_eq|notW_eq", modules=("Qvnt.Lemmas.GenRegs",), audit="Qvnt/Audit/GenRegs.lean", sources=r"UNSUPPORTED class\.rs"), tie2(r"bits_(from|next)_eq|bitsCollect_eq|bitsList_eq|creg_(get_by_mask|mul|mul_assign|new|fmt)_eq|h_(loop|h)_eq|vreg_\w+_eq|quant_get_vreg(_by)?_eq", r"UNSUPPORTED (bits_iter\.rs|class\.rs|h\.rs|virtl\.rs|quant\.rs: register/quant\.rs::get_vreg)", creg=True)],
         "suites": [
             suite("bits", dict(count=500, timeout=60), dict(count=20000, timeout=600)),
         ],
